@@ -2261,6 +2261,16 @@ def minmax(kind: str, xs: List[Rat]) -> Rat:
     for x in flat:
         if not any(x == y for y in uniq):
             uniq.append(x)
+    # absorption: min(x, max(x, y)) = x and max(x, min(x, y)) = x (the swap idiom applied twice produces these)
+    other = "max" if kind == "min" else "min"
+    kept = []
+    for x in uniq:
+        a = x.single_atom()
+        if isinstance(a, tuple) and len(a) == 2 and a[0] == other and isinstance(a[1], frozenset) \
+                and any(any(y == z for z in a[1]) for y in uniq if y is not x):
+            continue
+        kept.append(x)
+    uniq = kept
     if len(uniq) == 1:
         return uniq[0]
     if all(u.is_const() for u in uniq):
@@ -2497,9 +2507,11 @@ def simplify_under(v, conds):
     if not any(isinstance(a, tuple) and a and a[0] in ("abs", "min", "max") for a in all_atoms_deep(v)):
         return v
     known = set()
+    known_rats = []
     for c in conds:
         if c.op in ("<", "<=") and isinstance(c.x, Rat):
             known.add(c.x.key())
+            known_rats.append(c.x)
     if not known:
         return v
 
@@ -2543,6 +2555,19 @@ def simplify_under(v, conds):
                                 break
                         if changed:
                             break
+                # a fact about a NESTED extremum that flattening absorbed: p <= max(S) with S inside this max makes p
+                # redundant (max(S u {p}) = max(S)); dually min(S) <= p inside a min
+                if len(items) > 2:
+                    for x in known_rats:
+                        for p in list(items):
+                            if len(items) <= 2:
+                                break
+                            rest = [q for q in items if q is not p]
+                            d = (x - p) if a[0] == "max" else (x + p)      # x = p - M  /  x = m - p
+                            m_at = (-d).single_atom() if a[0] == "max" else d.single_atom()
+                            if isinstance(m_at, tuple) and len(m_at) == 2 and m_at[0] == a[0] and isinstance(m_at[1], frozenset) \
+                                    and all(any(e == q for q in rest) for e in m_at[1]):
+                                items = rest
                 out = minmax(a[0], items)
             else:
                 na = s_any(a)
